@@ -92,6 +92,9 @@ func runC02(c *Cfg) {
 		}
 		cases = append(cases, &c02Case{src: []byte(src), origin: fmt.Sprintf("idiom#%d", i), kind: "idiom", runs: 8})
 	}
+	for i, src := range c02LiteralPrefixes() {
+		cases = append(cases, &c02Case{src: []byte(src), origin: fmt.Sprintf("literal-prefix#%d", i), kind: "literal-prefix", runs: 2})
+	}
 	for i := 0; i < nRaw && len(seeds) > 0; i++ {
 		r := rr.Sub()
 		s := Pick(r, seeds)
